@@ -51,7 +51,7 @@ def required_cells(tier):
             "class:enum", "class:random", "names:substring-related", "meta:rename-case-variants",
             "class:clustering", "clustering:platforms>=4", "clustering:>=4-distinct-distances", "clustering:average-marker",
             "summary-report", "summary-report:nan", "name:empty-string", "name:glob-metacharacters",
-            "filetree:platform-added-between-printouts", "mapping-updated-in-place-between-calls", "clustering:undefined-distance"]
+            "filetree:platform-added-between-printouts", "mapping-updated-in-place-between-calls", "clustering:undefined-distance", "summary-report:to-a-terminal", "logger-at-debug-level"]
 
 
 # ---------------------------------------------------------------- oracle --
@@ -285,13 +285,30 @@ def check_table(rows, report, watch, rng):
     resd = watch(report.divergence, table)
     expect("divergence", None, resd, None if amb else dv, alt_ok=(dv,) if amb else ())
 
-    # the summary report prints the same three metrics (2 decimals, or nan when undefined) and one row per platform set
+    # the summary report prints the same three metrics (2 decimals, or nan when undefined) and one row per platform set;
+    # every third table: to a stream that says it is a terminal (escape sequences are stripped before parsing), and
+    # with the package's logger at DEBUG level, as both command-line front ends set it
     import io
-    buf = io.StringIO()
+    import logging
+
+    class Terminal(io.StringIO):
+        def isatty(self):
+            return True
+
+    as_terminal = (len(rows) + total) % 3 == 0
+    buf = Terminal() if as_terminal else io.StringIO()
+    cb_logger = logging.getLogger("codebasin")
+    old_level, old_disable = cb_logger.level, logging.root.manager.disable
     try:
+        if as_terminal:
+            cells.add("summary-report:to-a-terminal")
+            cells.add("logger-at-debug-level")
+            logging.disable(logging.NOTSET)
+            cb_logger.setLevel(logging.DEBUG)
+            expect("divergence (package logger at DEBUG level)", None, watch(report.divergence, table), None if amb else dv, alt_ok=(dv,) if amb else ())
         report.summary(table, stream=buf)
         printed = {}
-        for ln in buf.getvalue().splitlines():
+        for ln in re.sub(r"\x1b\[[0-9;]*m", "", buf.getvalue()).splitlines():
             mm = re.match(r"^(Code Divergence|Coverage \(%\)|Avg\. Coverage \(%\)|Total SLOC): (.*)$", ln)
             if mm:
                 printed[mm.group(1)] = mm.group(2).strip()
@@ -309,6 +326,9 @@ def check_table(rows, report, watch, rng):
             problems.append({"metric": "summary:Total SLOC", "args": None, "expected": str(total), "observed": printed.get("Total SLOC")})
     except Exception as e:
         problems.append({"metric": "summary", "args": None, "expected": "a report", "observed": f"{type(e).__name__}: {e}"})
+    finally:
+        cb_logger.setLevel(old_level)
+        logging.disable(old_disable)
 
     # metamorphic: rename, reorder, scale
     base = {"coverage": watch(report.coverage, table), "average_coverage": watch(report.average_coverage, table),
